@@ -705,6 +705,9 @@ def eval_tree(e, env):
     sub-expressions to Python values (ints for enum constants, bools).  Raises Unknown for anything
     that is neither in env nor a constant/operator over known values."""
     e0 = e
+    if isinstance(e0, dict) and e0.get("k") == "cast" and str(e0.get("to")) in ("double", "float", "long double") and e0.get("e") is not None:
+        v = eval_tree(e0["e"], env)           # a conversion to a floating type changes what '/' means
+        return float(v) if isinstance(v, int) and not isinstance(v, bool) else v
     e = strip(e)
     if not isinstance(e, dict):
         raise Unknown(str(e))
@@ -758,7 +761,7 @@ def eval_tree(e, env):
             if op == "+": return a + b
             if op == "-": return a - b
             if op == "*": return a * b
-            if op == "/" and b != 0: return int(a / b)
+            if op == "/" and b != 0: return (a / b) if (isinstance(a, float) or isinstance(b, float)) else int(a / b)
             if op == "%" and b != 0: return int(a - b * int(a / b))
         except TypeError:
             raise Unknown(t)
@@ -1240,7 +1243,7 @@ def expand_locals(fn, tree, depth=4):
     return sub(tree, depth)
 
 
-def interp(fn, env, until=None, max_paths=32, max_steps=4000, unknown_both=True, start=None, max_visits=6):
+def interp(fn, env, until=None, max_paths=32, max_steps=4000, unknown_both=True, start=None, max_visits=6, on_event=None):
     """A small concrete interpreter over the event CFG: starting with `env` (canonical text -> value), declarations and
     plain assignments of locals / members whose right-hand side evaluates are recorded (otherwise the name is forgotten),
     ++/-- on known integers are applied, branch conditions are decided with the *current* environment (a condition that
@@ -1302,6 +1305,8 @@ def interp(fn, env, until=None, max_paths=32, max_steps=4000, unknown_both=True,
                 if ev.get("k") == "throw":
                     out.append(("throw", dict(e_), evs, ev))
                     return
+                if on_event is not None:
+                    on_event(ev, e_)          # a rule may observe selected events together with the environment they execute in
                 step_env(e_, ev)
             if blk.term.get("noreturn"):
                 out.append(("noreturn", dict(e_), evs, None))
